@@ -137,3 +137,37 @@ Definition vb_read_prog : list rs :=
           R_if RC_eb_hi0 [R_break];
           R_mult_step];
    R_set_value; R_ret_nil].
+
+(* ------------------------------------------------------------------ *)
+(* the switch of fixedHeader.ReadRemaining: which struct is allocated for
+   which first byte, and whether it is given the first byte
+   (`&T{fixed: f.fixed}`) - regenerated as a table (gen/GenRead.v) *)
+Definition dispatch_mask : N := 240.        (* switch byte(f.fixed) & 0b1111_0000 *)
+
+Definition dispatch_table : list (N * string * bool) :=
+  [(16%N, "Connect", true); (32%N, "ConnAck", true); (48%N, "Publish", true); (64%N, "PubAck", true);
+   (80%N, "PubRec", true); (96%N, "PubRel", true); (112%N, "PubComp", true); (128%N, "Subscribe", true);
+   (144%N, "SubAck", true); (160%N, "Unsubscribe", true); (176%N, "UnsubAck", true); (192%N, "PingReq", true);
+   (208%N, "PingResp", true); (224%N, "Disconnect", true); (240%N, "Auth", true)].
+Definition dispatch_default : string * bool := ("Undefined", false).
+
+Definition kind_of_name (s : string) : kind :=
+  if String.eqb s "Connect" then KConnect else if String.eqb s "ConnAck" then KConnAck
+  else if String.eqb s "Publish" then KPublish else if String.eqb s "PubAck" then KPubAck
+  else if String.eqb s "PubRec" then KPubRec else if String.eqb s "PubRel" then KPubRel
+  else if String.eqb s "PubComp" then KPubComp else if String.eqb s "Subscribe" then KSubscribe
+  else if String.eqb s "SubAck" then KSubAck else if String.eqb s "Unsubscribe" then KUnsubscribe
+  else if String.eqb s "UnsubAck" then KUnsubAck else if String.eqb s "PingReq" then KPingReq
+  else if String.eqb s "PingResp" then KPingResp else if String.eqb s "Disconnect" then KDisconnect
+  else if String.eqb s "Auth" then KAuth else KUndefined.
+
+Fixpoint dispatch_find (t : list (N * string * bool)) (key : N) : string * bool :=
+  match t with
+  | [] => dispatch_default
+  | (k, name, keeps) :: t' => if (k =? key)%N then (name, keeps) else dispatch_find t' key
+  end.
+
+(* the packet ReadRemaining allocates for first byte b, by the table *)
+Definition dispatch_run (b : N) : kind * pkt :=
+  let '(name, keeps) := dispatch_find dispatch_table (N.land b dispatch_mask) in
+  (kind_of_name name, if keeps then setf (M F_fixed) (VN b) zero_pkt else zero_pkt).
